@@ -22,7 +22,7 @@ func (r *runner) leafInner(f *F) string {
 		}
 		block = "{" + f.Cmp + ": [" + strings.Join(parts, ", ") + "]}"
 	} else {
-		block = "{" + f.Cmp + ": " + r.lit(f.Val)
+		block = "{" + f.Cmp + ": " + r.operand(f)
 		if f.Cmp2 != "" {
 			block += ", " + f.Cmp2 + ": " + r.lit(f.Val2)
 		}
@@ -35,6 +35,37 @@ func (r *runner) leafInner(f *F) string {
 		block = "{" + f.Path[i] + ": " + block + "}"
 	}
 	return block
+}
+
+// operand renders the operand of a scalar leaf, taking it from a stored document when asked to.
+func (r *runner) operand(f *F) string {
+	if f.FromDoc > 0 && len(r.docs) > 0 && len(f.Path) == 0 {
+		fd := fdef(f.Field)
+		v := r.docs[(f.FromDoc-1)%len(r.docs)].Vals[f.Field]
+		if arr, ok := v.([]any); ok && fd.Arr && len(arr) > 0 {
+			v = arr[0]
+		}
+		switch x := v.(type) {
+		case json.Number:
+			if fd.Kind == "int" {
+				if i, err := x.Int64(); err != nil || i != clampInt32(i) {
+					break // not expressible as a GraphQL Int literal
+				}
+			}
+			if fd.Kind == "int" || fd.Kind == "f64" || fd.Kind == "f32" {
+				return gqlLit(x)
+			}
+		case string:
+			if fd.Kind == "str" || fd.Kind == "time" || fd.Kind == "blob" || fd.Kind == "rel" {
+				return gqlLit(x)
+			}
+		case bool:
+			if fd.Kind == "bool" {
+				return gqlLit(x)
+			}
+		}
+	}
+	return r.lit(f.Val)
 }
 
 func leafKey(f *F) string {
